@@ -264,6 +264,37 @@ stream_lastclock(struct stream *stream)
 	return stream->lastclock;
 }
 
+/* Returns the size of the event at the current offset or -1 if the event
+ * is not completely contained in the stream. Only reads the event size
+ * fields once they are known to be inside the stream. */
+static int64_t
+next_ev_size(struct stream *stream)
+{
+	int64_t avail = stream->size - stream->offset;
+	struct ovni_ev *ev = (struct ovni_ev *) &stream->buf[stream->offset];
+	int64_t size = (int64_t) sizeof(ev->header);
+
+	if (avail < size)
+		return -1;
+
+	if (ev->header.flags & OVNI_EV_JUMBO) {
+		size += (int64_t) sizeof(ev->payload.jumbo.size);
+
+		if (avail < size)
+			return -1;
+
+		size += (int64_t) ev->payload.jumbo.size;
+	} else {
+		size += ovni_payload_size(ev);
+	}
+
+	/* The size must also be representable by ovni_ev_size() */
+	if (size > avail || size > INT_MAX)
+		return -1;
+
+	return size;
+}
+
 int
 stream_step(struct stream *stream)
 {
@@ -291,14 +322,14 @@ stream_step(struct stream *stream)
 		}
 	}
 
-	stream->cur_ev = (struct ovni_ev *) &stream->buf[stream->offset];
-
-	/* Ensure the event fits */
-	if (stream->offset + ovni_ev_size(stream->cur_ev) > stream->size) {
+	/* Ensure the event fits, without reading beyond the stream */
+	if (next_ev_size(stream) < 0) {
 		err("stream '%s' ends with incomplete event",
 				stream->relpath);
 		return -1;
 	}
+
+	stream->cur_ev = (struct ovni_ev *) &stream->buf[stream->offset];
 
 	int64_t clock = stream_evclock(stream, stream->cur_ev);
 
